@@ -184,12 +184,12 @@ func checkC13(c *core.Ctx, l *core.Ledger) {
 		// every path from entry to the construction passes a skip call and takes its success edge
 		reach, path := core.PathFromEntryAvoiding(f, func(in ssa.Instruction) bool {
 			call, ok := in.(*ssa.Call)
-			return ok && call.Call.StaticCallee() != nil && strings.HasPrefix(call.Call.StaticCallee().Name(), "skip")
+			return ok && call.Call.StaticCallee() != nil && strings.HasPrefix(core.CanonName(call.Call.StaticCallee()), "skip")
 		}, func(in ssa.Instruction) bool { return in == borrow })
 		okSucc := true
 		core.Instrs(f, func(in ssa.Instruction) {
 			call, ok := in.(*ssa.Call)
-			if !ok || call.Call.StaticCallee() == nil || !strings.HasPrefix(call.Call.StaticCallee().Name(), "skip") {
+			if !ok || call.Call.StaticCallee() == nil || !strings.HasPrefix(core.CanonName(call.Call.StaticCallee()), "skip") {
 				return
 			}
 			// its error must be tested, with the error edge not reaching the construction
